@@ -109,7 +109,7 @@ def judge(run, scs, cases, mo, io, what, check_writes=True):
             continue
         res, ev, T = p
         got = [r[0] for r in res[1:]]
-        ok = got == sc.exp_results or all(e is None or e == g for e, g in zip(sc.exp_results, got)) and len(got) == len(sc.exp_results)
+        ok = got == sc.exp_results or all(e is None or e == g or (e.startswith("~") and g.startswith(e[1:])) for e, g in zip(sc.exp_results, got)) and len(got) == len(sc.exp_results)
         wbc = cc.writes_by_conn(ev)
         wok = True
         if check_writes:
@@ -117,12 +117,14 @@ def judge(run, scs, cases, mo, io, what, check_writes=True):
                 if [b.hex() for b in exp] != wbc.get(cid, []):
                     wok = False
         if not ok or not wok:
-            bad += 1
-            if bad <= 5:
+            if not getattr(sc, "finding_class", None):
+                bad += 1
+            if bad <= 5 or getattr(sc, "finding_class", None):
+                extra = {"finding_class": sc.finding_class} if getattr(sc, "finding_class", None) else {}
                 run.violation(kind="history", case=c[:4000],
                               expected=("results " + ";".join(str(x) for x in sc.exp_results) + " | writes " +
                                         " / ".join(",".join(b.hex() for b in w) for w in sc.exp_writes))[:3000],
-                              observed=i[:3000], how_found="oracle", detail=what)
+                              observed=i[:3000], how_found="oracle", detail=what, **extra)
         else:
             run.nontrivial.add(hash(c))
     run.evaluations += len(cases)
